@@ -214,7 +214,7 @@ def _call(args):
 # interpreter started in that "hostile" environment; the job function and its arguments travel by pickle, the
 # resulting Part comes back by pickle.  Failures seen there carry the key prefix "env-hostile:" and replay there.
 HOSTILE_ENV = {"PYTHONHASHSEED": "4242", "VERIF_ENVMODE": "hostile"}
-HOSTILE_WHAT = "python -O, DEBUG logging on the root and chmpy loggers, another PYTHONHASHSEED (cycling through 8 values), another working directory, numpy print options precision=0/threshold=4"
+HOSTILE_WHAT = "python -O, DEBUG logging on the root and chmpy loggers, another PYTHONHASHSEED (cycling through 8 values), another working directory, numpy print options precision=0/threshold=4, after ~115 public calls with invalid input have failed in the same process"
 HOSTILE_MAX_JOBS = 8
 
 
@@ -228,16 +228,25 @@ def enter_hostile_process():
     logging.getLogger().setLevel(logging.DEBUG)
     logging.getLogger("chmpy").setLevel(logging.DEBUG)
     np.set_printoptions(precision=0, threshold=4, edgeitems=1)
+    # ... and a process in which ~115 public calls with invalid input have already failed (mc/aftermath.py): "after an error"
+    if os.environ.get("VERIF_NO_AFTERMATH"):
+        return 0, 0
+    from mc import aftermath
+
+    return aftermath.provoke_all()
 
 
 def _hostile_main(infile, outfile):
     import importlib
     import pickle
 
-    enter_hostile_process()
+    nfailed, npassed = enter_hostile_process()
     modname, fname, chunk, kw = pickle.load(open(infile, "rb"))
     fn = getattr(importlib.import_module(modname), fname)
     part = Part()
+    if npassed < 0:
+        part.fail("harness:aftermath-setup", "the series of failing calls could not be set up", {"kind": "harness"})
+    part.counters["aftermath_failed_calls_before_the_job"] = nfailed
     guarded(fn, part, chunk, kw)
     pickle.dump(part, open(outfile, "wb"))
 
@@ -284,8 +293,12 @@ def _call_hostile(args):
 
 
 def hostile_sample(fn, chunks, thorough=False):
-    """the last job of every job kind (kind = leading string of a tuple job, else the function), at most HOSTILE_MAX_JOBS"""
-    def kind(c):
+    """
+    jobs to repeat in the hostile environment: going backwards through the chunks, every chunk that holds a job KIND not seen yet
+    (kind = the leading strings / booleans of a tuple job, the "kind" of a dict job; a chunk that is a list of jobs has the kinds of
+    all its jobs), at most HOSTILE_MAX_JOBS; the thorough tier also takes the first chunk of every kind and three times as many
+    """
+    def kind1(c):
         if isinstance(c, dict):
             return ("d", c.get("kind"))
         if isinstance(c, (tuple, list)) and len(c):
@@ -294,16 +307,34 @@ def hostile_sample(fn, chunks, thorough=False):
                 return ("t",) + flags
             if isinstance(c[0], dict) and "kind" in c[0]:
                 return ("td", c[0]["kind"])
-        return ("f", fn.__name__)
+        return None
 
-    last, first = {}, {}
-    for c in chunks:
-        first.setdefault(kind(c), c)
-        last[kind(c)] = c
-    out = list(last.values())
-    if thorough:      # the thorough tier also takes the first job of every kind, and three times as many jobs
-        out += [c for k, c in first.items() if c is not last[k]]
-    return out[: HOSTILE_MAX_JOBS * (3 if thorough else 1)]
+    def kinds(c):
+        k = kind1(c)
+        if k is not None:
+            return {k}
+        if isinstance(c, (tuple, list)) and len(c) and isinstance(c[0], (tuple, list, dict)):
+            ks = {kind1(e) for e in c}
+            ks.discard(None)
+            if ks:
+                return ks
+        return {("f", fn.__name__)}
+
+    limit = HOSTILE_MAX_JOBS * (3 if thorough else 1)
+    out, covered = [], set()
+    for c in reversed(chunks):
+        ks = kinds(c)
+        if not ks <= covered:
+            out.append(c)
+            covered |= ks
+    if thorough:
+        seen = set()
+        for c in chunks:
+            ks = kinds(c)
+            if not ks <= seen and not any(c is o for o in out):
+                out.append(c)
+            seen |= ks
+    return out[:limit]
 
 
 class Ctx(Part):
@@ -330,7 +361,7 @@ class Ctx(Part):
         print("[%s %6.1fs]" % (self.pid, time.time() - self.t0), *a, flush=True)
 
     # --- parallel map over chunks ---------------------------------------
-    def pmap(self, fn, chunks, nproc=None, **kw):
+    def pmap(self, fn, chunks, nproc=None, hostile_all=False, **kw):
         """
         fn(part, chunk, **kw) is executed for every chunk in a pool of forked
         workers (chmpy already imported in the parent); partial results are
@@ -338,7 +369,8 @@ class Ctx(Part):
         """
         chunks = list(chunks)
         nproc = min(nproc or NPROC, max(1, len(chunks)))
-        sample = [] if (os.environ.get("VERIF_ENVMODE") == "hostile" or os.environ.get("VERIF_NO_HOSTILE")) else hostile_sample(fn, chunks, self.thorough)
+        # hostile_all: cheap sweeps are repeated in the hostile environment completely, not by sample
+        sample = [] if (os.environ.get("VERIF_ENVMODE") == "hostile" or os.environ.get("VERIF_NO_HOSTILE")) else (list(chunks) if hostile_all else hostile_sample(fn, chunks, self.thorough))
         if nproc == 1 or os.environ.get("VERIF_SERIAL"):
             for c in chunks:
                 p = Part()
